@@ -11,9 +11,8 @@
 EXTENDS ProvideWalk
 
 Trace == ndJsonDeserialize("trace.ndjson")
-VARIABLES l, dev
-tvars == <<vars, l, dev>>
-CONSTANT Devs
+VARIABLES l, devAll     \* devAll: deviations used by earlier configurations of this trace
+tvars == <<vars, l, devAll>>
 ASSUME TLCSet(1, 0)
 
 HasEv == l <= Len(Trace)
@@ -22,42 +21,44 @@ IsEvent(e) == HasEv /\ Trace[l].ev = e /\ l' = l + 1
 
 CfgOf(e) == [n |-> e.n, links |-> e.links, kind |-> e.kind, ident |-> e.ident, aliasOf |-> e.aliasOf,
              loc |-> e.loc, fok |-> e.fok, mode |-> e.mode, locality |-> e.locality, trk |-> e.trk,
-             cap |-> e.cap, roots |-> e.roots, stop |-> e.stop]
+             cap |-> e.cap, roots |-> e.roots, stop |-> e.stop, cached |-> e.cached]
 Dummy == [n |-> 1, links |-> << <<>> >>, kind |-> <<"raw">>, ident |-> <<FALSE>>, aliasOf |-> <<0>>,
           loc |-> <<TRUE>>, fok |-> <<TRUE>>, mode |-> "dag", locality |-> FALSE, trk |-> "map",
-          cap |-> 0, roots |-> <<>>, stop |-> 0]
+          cap |-> 0, roots |-> <<>>, stop |-> 0, cached |-> FALSE]
 
-TInit == l = 1 /\ dev = {} /\ InitWith(Dummy)
+TInit == l = 1 /\ devAll = {} /\ InitWith(Dummy)
 
 Quiescent == done \/ cfg.roots = <<>>
-TReset == IsEvent("Reset") /\ Quiescent /\ StartWith(CfgOf(Ev)) /\ UNCHANGED dev
+TReset == IsEvent("Reset") /\ Quiescent /\ StartWith(CfgOf(Ev)) /\ devAll' = devAll \cup dev
 
-TPop == Pop /\ l' = l /\ UNCHANGED dev                    \* forced: every other walk action needs pc # "pop"
-TVisitW == IsEvent("Visit") /\ cur = Ev.c /\ Visit(Ev.ret) /\ UNCHANGED dev
+TPop == Pop /\ l' = l                    \* forced: every other walk action needs pc # "pop"
+TVisitW == IsEvent("Visit") /\ cur = Ev.c /\ Visit(Ev.ret)
 TLocal == /\ IsEvent("Local") /\ pc = "local" /\ cfg.locality /\ cur = Ev.c /\ Ev.ret = cfg.loc[cur]
-          /\ Local /\ UNCHANGED dev
+          /\ Local
 \* without WithLocality the locality step makes no call
-TNoLocal == pc = "local" /\ ~cfg.locality /\ Local /\ l' = l /\ UNCHANGED dev
+TNoLocal == pc = "local" /\ ~cfg.locality /\ Local /\ l' = l
 TFetch == /\ IsEvent("Fetch") /\ pc = "fetch" /\ cur = Ev.c /\ Ev.ok = cfg.fok[cur]
-          /\ Fetch /\ UNCHANGED dev
+          /\ Fetch
 TEmit == /\ IsEvent("Emit") /\ pc = "emit" /\ cur = Ev.c /\ ~cfg.ident[cur] /\ Ev.cont = (left # 1)
-         /\ Emit /\ UNCHANGED dev
+         /\ Emit
 \* identity CIDs are traversed, not emitted: no callback
-TNoEmit == pc = "emit" /\ cfg.ident[cur] /\ Emit /\ l' = l /\ UNCHANGED dev
-TEnd == IsEvent("End") /\ Ev.c = wi /\ EndWalk /\ UNCHANGED dev
+TNoEmit == pc = "emit" /\ cfg.ident[cur] /\ Emit /\ l' = l
+TEnd == IsEvent("End") /\ Ev.c = wi /\ EndWalk
 
 Counters == /\ Len(chain') = Ev.chain
             /\ chain'[Len(chain')].cap = Ev.cap /\ chain'[Len(chain')].n = Ev.cur
             /\ total' = Ev.total /\ dedup' = Ev.dedup
-TTVisit == IsEvent("TVisit") /\ TVisit(Ev.k, Ev.ret) /\ Counters /\ UNCHANGED dev
-TTHas   == IsEvent("THas") /\ THas(Ev.k, Ev.ret) /\ UNCHANGED dev
-TTBulk  == IsEvent("TBulk") /\ TBulk(Ev.n, Ev.nt) /\ Counters /\ UNCHANGED dev
+TTVisit == IsEvent("TVisit") /\ TVisit(Ev.k, Ev.ret) /\ Counters
+TTHas   == IsEvent("THas") /\ THas(Ev.k, Ev.ret)
+TTBulk  == IsEvent("TBulk") /\ TBulk(Ev.n, Ev.nt) /\ Counters
 
-TNext == TReset \/ TPop \/ TVisitW \/ TLocal \/ TNoLocal \/ TFetch \/ TEmit \/ TNoEmit \/ TEnd
-         \/ TTVisit \/ TTHas \/ TTBulk
+TNext == \/ TReset
+         \/ /\ UNCHANGED devAll
+            /\ \/ TPop \/ TVisitW \/ TLocal \/ TNoLocal \/ TFetch \/ TEmit \/ TNoEmit \/ TEnd
+               \/ TTVisit \/ TTHas \/ TTBulk
 TSpec == TInit /\ [][TNext]_tvars
 
-DevReport == HasEv \/ \A d \in dev : PrintT(<<"DEV_USED", d>>)
+DevReport == HasEv \/ \A d \in dev \cup devAll : PrintT(<<"DEV_USED", d>>)
 TraceConstraint == TLCSet(1, IF l - 1 > TLCGet(1) THEN l - 1 ELSE TLCGet(1))
 TracePost == PrintT(<<"TRACE_HWM", TLCGet(1)>>)
 =============================================================================
